@@ -51,6 +51,10 @@ def plan(tier, seed):
                             'ref': {'keywords': kws, 'name_rules': name_rules, 'ignorecase': True}, 'gen': True, 'warm': WARM}
                     obs.append(Ob(name=f'{gn}_ic-at-parse-time_L{n}', factory='vt.pegbody:make_peg', spec=spec, params=[(f'c{i}', 0, UNI) for i in range(n)],
                                   budget=BUDGET[n] * 3 if n == 2 else BUDGET[n] + 120, group='ignorecase-setting', extra_pre=''))
+            if gn in ('choice', 'closure') and not ic:
+                for n in ((2, 3) if tier == 'quick' else (2, 3, 4)):
+                    obs.append(Ob(name=f'{gn}_with-action_L{n}', factory='vt.props.c11:make_with_action', spec={'grammar': gn, 'ic': ic, 'n': n},
+                                  params=[(f'c{i}', 0, UNI) for i in range(n)], budget=BUDGET[min(n, 3)] * (1 if n < 4 else 4), group='with-action'))
             if tier == 'quick' and ic and gn not in ('closure',):
                 continue
             spec2 = {'grammar': gn, 'ic': ic, 'n': 3}
@@ -71,6 +75,77 @@ def plan(tier, seed):
         'outside': 'longer texts; keywords added through the API instead of directives; @name with semantic actions',
         'assumptions': ['vt/refpeg.py keyword rule: str(value) (upper-cased under ignorecase) in the keyword set'],
     }
+
+
+def make_with_action(spec):
+    """the keyword check runs on the rule's parsed value BEFORE the semantic action: an action that transforms the value (or model building on a
+    typed @name rule) must never see, nor let through, a reserved word"""
+    from ..harness import mktext, skel
+    from ..pegbody import Engine, GenParser, norm, render_full
+    from ..refpeg import Fail, G, Ref
+    rules, kws, name_rules, directive = GRAMMARS[spec['grammar']]
+    ic = spec['ic']
+    directives = directive + ('@@ignorecase :: True\n' if ic else '')
+    gtext = directives + render_full(rules, {r: ['name'] for r in name_rules})
+    eng = Engine(gtext)
+    gen = GenParser(gtext)
+    g = G(rules, keywords=kws, name_rules=name_rules, ignorecase=ic)
+    kwset = {k.upper() for k in kws} if ic else set(kws)
+
+    def semantics(seen):
+        class Wrap:
+            pass
+
+        def mk(rule):
+            def m(self, ast, *a, **kw):
+                seen.append(ast)
+                return ('id', ast)
+            return m
+        for r in name_rules:
+            setattr(Wrap, r, mk(r))
+        return Wrap()
+
+    def ref_action(seen):
+        def call(rule, ast, ps, kws_):
+            if rule in name_rules:
+                seen.append(ast)
+                return ('id', ast)
+            return ast
+        return call
+
+    def run(parser, t, seen):
+        try:
+            r = parser.parse(t, semantics=semantics(seen))
+            return (r[0], norm(r[1]) if r[0] == 'ok' else None)
+        except Exception as e:  # noqa: BLE001
+            return ('raised', type(e).__name__)
+
+    def body(args):
+        t = mktext(args)
+        s1, s2, s3 = [], [], []
+        real = run(eng, t, s1)
+        other = run(gen, t, s2)
+        try:
+            v, q = Ref(g, t, actions=ref_action(s3)).parse()
+            ref = ('ok', norm(v))
+        except Fail:
+            ref = ('fail', None)
+        if real != ref:
+            return False, 'model-vs-reference', [real[0], ref[0], skel(real[1]), skel(ref[1])]
+        if other != real:
+            return False, 'generated-vs-model', [other[0], real[0]]
+        for seen in (s1, s2):
+            for x in seen:
+                xs = str(x).upper() if ic else str(x)
+                for k in kwset:
+                    if xs == k:
+                        return False, 'action-saw-a-keyword', None
+        return True, real[0] if real[0] != 'fail' else 'fail', [len(s1)]
+
+    n = spec['n']
+    body.explain = lambda args: f'grammar:\n{gtext}text={mktext(args)!r}'
+    body.warm = [tuple(map(ord, w)) for w in WARM if len(w) == n]
+    return body
 
 
 def make_undecorated(spec):
